@@ -1350,6 +1350,8 @@ def rand_amount(rng):
     r = rng.random()
     if r < 0.05:
         return 0.0
+    if r < 0.12:
+        return float(rng.choice([0.001, 0.004, 0.005, 0.009, 0.01, 0.015, 0.5]))
     mag = 10 ** rng.uniform(0, 7)
     return float(rng.choice([round(mag), round(mag, 2), mag]))
 
@@ -1461,11 +1463,19 @@ class Gen(object):
         if r < 0.19:
             if master <= 0:
                 return ['acct_sub', rand_amount(rng) + 1.0]
+            if rng.random() < 0.1:
+                tiny = rng.choice([0.001, 0.004, 0.005, 0.009, 0.01, 0.015])
+                if tiny <= master:
+                    return ['p_sub', pid, tiny]
             return ['p_sub', pid, float(master) * rng.choice([0.05, 0.3, 0.5, 1.0, rng.random()])]
         if r < 0.25:
             cash = b.get_portfolio_cash_balance(pid)
             if cash <= 0:
                 return ['p_wd', pid, 0.0] if cash == 0 else ['quote', self.quotes(1)]
+            if rng.random() < 0.15:
+                tiny = rng.choice([0.001, 0.004, 0.005, 0.009, 0.01, 0.015])
+                if tiny <= cash:
+                    return ['p_wd', pid, tiny]
             return ['p_wd', pid, float(cash) * rng.choice([0.0, 0.1, 0.5, 1.0, rng.random()])]
         if r < 0.55:
             a = rng.choice(assets)
